@@ -2079,6 +2079,8 @@ class _CallMixin:
         gen_consumer = getattr(self, "_gen_consumer", None)
         if gen_consumer is not None:
             fr.on_yield, fr.consumer_frame = gen_consumer
+            fr.gen_cm = getattr(self, "_gen_cm", False)
+            self._gen_cm = False
             self._gen_consumer = None
         self._running_gen = False
         self.frames.append(fr)
@@ -2626,6 +2628,7 @@ class _StmtMixin:
                 if item.optional_vars is not None:
                     self.assign(item.optional_vars, val, st)
                 self.st_With(st, idx + 1, vals)
+            self._gen_cm = True
             self.run_generator(sv, consume, st)
             self.event("with_exit", (Op("cm", Const(sv.finfo.qual)),), st)
             return
@@ -4224,6 +4227,23 @@ class _ExtMixin:
                 return acc
         return None
 
+    def _operator_binop(op, inplace=False):
+        def f(self, a, k, n):
+            if len(a) != 2 or k:
+                return None
+            if op == "add":
+                lo = self.as_list(a[0])
+                if lo is not None and inplace:
+                    self.list_method(a[0], lo, "extend", [a[1]], {}, n)
+                    return a[0]
+            return binop(op, a[0], a[1])
+        return f
+    for _nm, _op in (("add", "add"), ("sub", "sub"), ("mul", "mul"), ("and_", "bitand"), ("or_", "bitor"), ("xor", "bitxor"),
+                     ("lshift", "lshift"), ("rshift", "rshift"), ("floordiv", "floordiv"), ("mod", "mod")):
+        locals()["x_operator_" + _nm] = _operator_binop(_op)
+        locals()["x_operator_i" + _nm.rstrip("_")] = _operator_binop(_op, True)
+    del _nm, _op
+
     def x_operator_itemgetter(self, a, k, n):
         return Op("itemgetter", *a)
 
@@ -4371,9 +4391,14 @@ def _do_yield(self, v, node):
         self.frames.pop()
         self.guard = saved_guard
     # whatever made the consumer stop iterating (break / return / raise) also stops the generator
-    stop = list(consumer.dead[nd0:]) + list(consumer.rdead[nr0:])
-    for c, (nb, nc) in zip(consumer.loop_stack, ctl_state):
-        stop += c.brk[nb:]
+    if getattr(gfr, "gen_cm", False):
+        # a context manager: leaving the with-body by return / break / continue resumes the generator after the yield
+        # (__exit__ without an exception); only an exception stops it there
+        stop = list(consumer.rdead[nr0:])
+    else:
+        stop = list(consumer.dead[nd0:]) + list(consumer.rdead[nr0:])
+        for c, (nb, nc) in zip(consumer.loop_stack, ctl_state):
+            stop += c.brk[nb:]
     for cnd in stop:
         gfr.dead.append(cnd)
 
